@@ -90,6 +90,8 @@ HARNESSES = {
     "u06_string_unpack_q": {"crate": "hexane", "file": "rust/hexane/src/lib.rs", "fn": "<String as RleValue>::try_unpack/unpack/value_len, <Vec<u8> as RleValue>::try_unpack/value_len", "mode": "bounded", "bound": "all inputs of <= 4 bytes", "timeout_s": 1200},
     "u06_string_unpack_t": {"crate": "hexane", "file": "rust/hexane/src/lib.rs", "fn": "<String as RleValue>::try_unpack/unpack/value_len", "mode": "bounded", "bound": "all inputs of <= 6 bytes", "tier": "thorough", "timeout_s": 3600},
     "u06_string_unpack_huge_len": {"crate": "hexane", "file": "rust/hexane/src/lib.rs", "fn": "<String|Vec<u8> as RleValue>::try_unpack/value_len", "mode": "bounded", "bound": "every length prefix > 16 (all u64) in front of a 12-byte buffer", "timeout_s": 1200},
+    "u06_bundle_decoder_call_site": {"crate": "hexane", "file": "rust/hexane/src/rle/decoder.rs", "fn": "<RleDecoder as Iterator>::next as called from automerge storage/bundle/builder.rs (raw chunk bytes)", "mode": "bounded",
+                                     "bound": "all value buffers of <= 2 bytes (KNOWN FINDING: fails)"},
     "u06_rle_segment_total_u64": {"crate": "hexane", "file": "rust/hexane/src/rle/decoder.rs", "fn": "RleDecoder::try_next_segment", "mode": "bounded", "bound": "all buffers of <= 11 bytes, one step", "timeout_s": 1200},
     "u06_rle_segment_total_i64": {"crate": "hexane", "file": "rust/hexane/src/rle/decoder.rs", "fn": "RleDecoder::try_next_segment", "mode": "bounded", "bound": "all 11-byte buffers, two steps (covers the i64::MIN run header)", "timeout_s": 1200},
     "u06_rle_segment_utf8": {"crate": "hexane", "file": "rust/hexane/src/rle/decoder.rs", "fn": "RleDecoder::<String>::try_next_segment", "mode": "bounded", "bound": "all 5-byte buffers, one step", "timeout_s": 1200},
@@ -251,7 +253,7 @@ PROPERTIES.update({
                  "u04_exid_try_from_total_q", "u04_exid_try_from_total_t", "u04_cursor_from_str_total_q",
                  "u05_flags_parse_bytes",
                  "u06_int_unpack_total", "u06_narrow_unpack_total", "u06_string_unpack_q", "u06_string_unpack_t", "u06_string_unpack_huge_len",
-                 "u06_rle_segment_total_u64", "u06_rle_segment_total_i64", "u06_rle_segment_utf8"],
+                 "u06_rle_segment_total_u64", "u06_rle_segment_total_i64", "u06_rle_segment_utf8", "u06_bundle_decoder_call_site"],
         "not_under_contract": ["Automerge::load / load_incremental / rescue", "Change::from_bytes and the change/document/bundle column decoders", "sync::Message::decode with changes, State::decode",
                                "ActorId / ChangeHash hex parsing", "the RLE/delta column decoders feeding ObjIdIter/KeyIter/OpIdListIter (arbitrary sources in the Verus unit)", "import / import_obj (str code; a panic there, D9, was repaired but is not decided by this check)",
                                "parse combinators map/tuple2/apply_n/length_prefixed/range_of (generic FnMut parsers)", "hexane Column::load, slabs, delta/bool/raw decoders"],
